@@ -335,27 +335,41 @@ class ConstsBulletproofs(ConstsBellman):
 
 class _FieldInverse(_Backend):
     """fieldinverse(v): for every v != 0 mod p (negative and unreduced included) the result r
-    satisfies 0 <= r < p and v*r = 1 mod p; ZeroDivisionError iff v = 0 mod p."""
+    satisfies 0 <= r < p and v*r = 1 mod p; ZeroDivisionError iff v = 0 mod p.  p is the modulus the backend
+    reports NOW: where the backend can be switched to another field (zkinterface set_modulus), also after a
+    switch, and also when inverses were computed before the switch (`warm`)."""
+    switchable = False
 
     def configs(self, tier):
-        return [dict()]
+        out = [dict(), dict(v=3), dict(v=-7)]
+        if self.switchable:
+            for q in ("bls12_381", "curve25519"):
+                out += [dict(switch=q), dict(switch=q, v=3, warm=True), dict(switch=q, v=-7, warm=True)]
+        return out
 
     def setup(self, c, cfg):
         m = self.mod(c)
-        cur().p = self.prime
-        c.g.p = self.prime
-        return m.fieldinverse, (SymInt(z3.Int("s_v")),), {}
+        self._p = gh.PRIMES[cfg["switch"]] if cfg.get("switch") else self.prime
+        v = cfg["v"] if "v" in cfg else SymInt(z3.Int("s_v"))
+        if cfg.get("warm"):
+            m.fieldinverse(v)                  # an inverse computed while the previous field was selected
+        if cfg.get("switch"):
+            m.set_modulus(self._p)
+        cur().p = self._p
+        c.g.p = self._p
+        return m.fieldinverse, (v,), {}
 
     def raises(self, c, v):
-        return [(ZeroDivisionError, term(v) % self.prime == 0)]
+        return [(ZeroDivisionError, term(v) % self._p == 0)]
 
     def post(self, c, r, v):
-        p = self.prime
+        p = self._p
         return {
             "V.range": And(term(r) >= 0, term(r) < p),
             "V.inverse": fmul(term(v) % p, term(r)) == 1,
             "V.inverse_int": imul(term(v), term(r)) % p == 1,
             "V.plain_int": isinstance(r, int),
+            "V.reported_modulus": self.mod(c).get_modulus() == p,
         }
 
 
@@ -368,6 +382,7 @@ class FieldInverseSnarkjs(_FieldInverse):
 class FieldInverseZkif(_FieldInverse):
     name = ZKIF + ":fieldinverse"
     module = ZKIF
+    switchable = True
 
 
 @register
